@@ -33,11 +33,16 @@ type eMem struct {
 	name string
 }
 type eAdd struct{ l, r expr }
+type eMapLit struct{ k, v expr } // {k: v}
 
 type sExpr struct{ e expr }
 type sLet struct{ lhs, rhs expr }
 type sAddEq struct{ lhs, rhs expr }
 type sDel struct{ m, k expr }
+type sMapItem struct { // v, ok = m[k]
+	v, ok expr
+	rhs   eIdx
+}
 type sCall struct {
 	param string
 	body  []stmt
@@ -86,6 +91,8 @@ func render(e expr, m *machine) string {
 		return render(x.c, m) + "." + x.name
 	case eAdd:
 		return render(x.l, m) + " + " + render(x.r, m)
+	case eMapLit:
+		return "{" + render(x.k, m) + ": " + render(x.v, m) + "}"
 	}
 	panic(fmt.Sprintf("c10: cannot render %T", e))
 }
@@ -98,6 +105,8 @@ func renderStmt(s stmt, m *machine) string {
 		return render(x.lhs, m) + " = " + render(x.rhs, m)
 	case sAddEq:
 		return render(x.lhs, m) + " += " + render(x.rhs, m)
+	case sMapItem:
+		return render(x.v, m) + ", " + render(x.ok, m) + " = " + render(x.rhs, m)
 	case sDel:
 		if x.k == nil {
 			return "delete(" + render(x.m, m) + ")"
@@ -133,6 +142,8 @@ func exprUses(e expr, name string) bool {
 		return exprUses(x.c, name)
 	case eAdd:
 		return exprUses(x.l, name) || exprUses(x.r, name)
+	case eMapLit:
+		return exprUses(x.k, name) || exprUses(x.v, name)
 	}
 	return false
 }
@@ -147,6 +158,8 @@ func stmtUses(s stmt, name string) bool {
 		return exprUses(x.lhs, name) || exprUses(x.rhs, name)
 	case sDel:
 		return exprUses(x.m, name) || exprUses(x.k, name)
+	case sMapItem:
+		return exprUses(x.v, name) || exprUses(x.ok, name) || exprUses(x.rhs, name)
 	case sCall:
 		if exprUses(x.arg, name) {
 			return true
@@ -463,6 +476,57 @@ func buildAlphabet() []op {
 	add("typed/rows", false, sLet{idx(idx(rows, litInt(0)), eLen{idx(rows, litInt(0))}), litInt(9)})
 	add("typed/rows", false, sLet{idx(rows, litInt(1)), t})
 	add("typed/rows", false, sLet{idx(rows, litInt(0)), litInt(9)})
+	// T. struct values as map keys: a struct with only comparable fields works
+	// as a key; a struct with a slice field (script-made `su`, host-defined
+	// `hs`), a struct whose interface{} field currently holds a slice (`si`
+	// after `si.V = [8]`) and an array of slices (`ha`) are unhashable: error
+	// when written or deleted, nil / false when read, never a panic
+	okv := v("ok")
+	for _, k := range []expr{v("sk"), v("su"), v("hs"), v("si"), v("ha")} {
+		add("map/struct-key", false, sLet{idx(mm, k), litInt(9)})
+		add("map/struct-key", false, sExpr{idx(mm, k)})
+		add("map/struct-key", false, sDel{mm, k})
+		add("map/struct-key", false, sLet{x, eMapLit{k, litInt(1)}})
+		add("map/struct-key", false, sMapItem{x, okv, eIdx{mm, k}})
+	}
+	add("map/item-ok", false, sMapItem{x, okv, eIdx{mm, litStr("k")}})
+	add("map/item-ok", false, sMapItem{x, okv, eIdx{mm, litStr("x")}})
+	add("map/item-ok", false, sMapItem{x, okv, eIdx{mm, litSl1}})
+	add("struct/iface-field", false, sLet{mem(v("si"), "V"), litSl8})
+	add("struct/iface-field", false, sLet{mem(v("si"), "V"), litInt(1)})
+	add("struct/iface-field", false, sExpr{mem(v("si"), "V")})
+	add("typed/map-write", false, sLet{idx(tm, v("su")), litInt(1)})
+	add("typed/map-read", false, sExpr{idx(tm, v("su"))})
+	// U. host struct types with embedded structs: promoted fields are read and
+	// written directly (by value `uv`, by pointer `up`, made from a defined type
+	// `uk`, embedded by pointer `pp`, two levels `dp`, shadowing `sh`, held in a
+	// list `ul = [up, uv]` and in a map `uh = {"p": up, "v": uv}`)
+	uv, up, uk, pp, dp, sh, ul, uh := v("uv"), v("up"), v("uk"), v("pp"), v("dp"), v("sh"), v("ul"), v("uh")
+	for _, e := range []expr{
+		mem(uv, "ID"), mem(uv, "Name"), mem(mem(uv, "Base"), "ID"), mem(uv, "Age"), mem(uv, "Nope"),
+		mem(up, "ID"), mem(mem(up, "Base"), "ID"), mem(up, "Name"),
+		mem(uk, "ID"), mem(pp, "ID"), mem(mem(pp, "Base"), "ID"), mem(pp, "Name"),
+		mem(dp, "ID"), mem(mem(dp, "User"), "ID"), mem(dp, "Name"), mem(dp, "Tag"),
+		mem(sh, "ID"), mem(mem(sh, "Base"), "ID"), mem(sh, "Name"),
+		mem(idx(ul, litInt(0)), "ID"), mem(idx(ul, litInt(1)), "ID"), mem(mem(uh, "p"), "ID"), mem(idx(uh, litStr("v")), "Name"),
+	} {
+		add("struct/embedded-read", false, sExpr{e})
+	}
+	type wr struct {
+		l expr
+		v expr
+	}
+	for _, w := range []wr{
+		{mem(up, "ID"), litInt(7)}, {mem(mem(up, "Base"), "ID"), litInt(8)}, {mem(up, "Name"), litStr("n")}, {mem(up, "ID"), litStr("z")},
+		{mem(up, "Nope"), litInt(1)}, {mem(up, "Age"), litFloat},
+		{mem(uk, "ID"), litInt(7)}, {mem(uk, "Name"), litStr("n")},
+		{mem(pp, "ID"), litInt(7)}, {mem(pp, "Name"), litInt(9)},
+		{mem(dp, "ID"), litInt(7)}, {mem(mem(mem(dp, "User"), "Base"), "ID"), litInt(6)}, {mem(dp, "Name"), litStr("n")},
+		{mem(sh, "ID"), litInt(7)}, {mem(mem(sh, "Base"), "ID"), litInt(6)}, {mem(sh, "Name"), litStr("n")},
+		{mem(idx(ul, litInt(0)), "ID"), litInt(3)}, {mem(mem(uh, "p"), "Name"), litStr("q")},
+	} {
+		add("struct/embedded-write", false, sLet{w.l, w.v})
+	}
 	// O. script functions that mutate, append to or re-slice their parameter
 	z := v("z")
 	add("call", true, sCall{"z", []stmt{sLet{idx(z, litInt(0)), litInt(9)}}, a})
@@ -499,15 +563,12 @@ func buildAlphabet() []op {
 // coreIDs: the reduced alphabet used for the third level of the quick tier: one
 // representative per mutating construct (the reads add no states).
 var coreIDs = map[string]bool{
-	`a[0] = 9`: true, `a[<len a>] = 9`: true, `b[0] = 7`: true, `b[<len b>] = 7`: true,
-	`b = a[0:1]`: true, `b = b[1:]`: true, `b = a[0:1:2]`: true, `b = a`: true, `x = m`: true,
-	`a += 4`: true, `b += 7`: true, `x = b + 7`: true,
-	`delete(m, "k")`: true, `delete(m, [1])`: true,
-	`s[<len s>] = "z"`: true, `x[0] = 9`: true, `x[0] = "z"`: true,
-	`t[0] = 9`: true, `st.A = 9`: true, `st.C = a`: true, `x = st.B`: true,
+	`a[<len a>] = 9`: true, `b[0] = 7`: true, `b = a[0:1]`: true,
+	`a += 4`: true, `b += 7`: true, `delete(m, "k")`: true,
+	`x[0] = 9`: true, `st.C = a`: true,
+	`x = st.C`: true, `x[len(x)] = 9`: true, `u = t[0:2]`: true, `x = u + [8]`: true,
 	`func(z) { z[0] = 9 }(a)`: true, `func(z) { z += 9 }(b)`: true,
-	`u = t[0:2]`: true, `x = u + [8]`: true, `st.D["n"] = 5`: true,
-	`x = st.C`: true, `x[len(x)] = 9`: true,
+	`st.D["n"] = 5`: true, `m[si] = 9`: true, `si.V = [8]`: true,
 }
 
 // ---------- initial configurations ----------
@@ -518,7 +579,33 @@ type config struct {
 	model func() map[string]interface{}
 }
 
+// hostValues: what the host defines in every fresh environment (and the model
+// gets its own, equal, instances).
+func hostValues() map[string]interface{} {
+	up := &User{Base{2, "p"}, 40}
+	uv := User{Base{1, "v"}, 30}
+	return map[string]interface{}{
+		"uv": uv,
+		"up": up,
+		"pp": &PUser{&Base{3, "pp"}, 50},
+		"dp": &Deep{User{Base{4, "d"}, 60}, "t"},
+		"sh": &Shadow{Base{5, "s"}, 55},
+		"hs": HostS{1, []int64{1}},
+		"ha": [1][]int64{nil},
+	}
+}
+
 func baseModel() map[string]interface{} {
+	g := baseModel0()
+	for k, v := range hostValues() {
+		g[k] = v
+	}
+	g["ul"] = []interface{}{g["up"], g["uv"]}
+	g["uh"] = map[interface{}]interface{}{"p": g["up"], "v": g["uv"]}
+	return g
+}
+
+func baseModel0() map[string]interface{} {
 	return map[string]interface{}{
 		"m":    map[interface{}]interface{}{"k": int64(1), int64(2): "v"},
 		"s":    "abc",
@@ -529,6 +616,11 @@ func baseModel() map[string]interface{} {
 		"st":   &mst{C: []interface{}{}, D: map[string]int64{}},
 		"tf":   make([]float64, 1, 4),
 		"rows": make([][]int64, 2),
+		"ok":   nil,
+		"sk":   skT{},
+		"su":   suT{A: []int64{}},
+		"si":   &HostI{},
+		"uk":   &User{},
 		"st2":  &mst{C: []interface{}{}, D: map[string]int64{}},
 	}
 }
@@ -543,6 +635,13 @@ var baseSetup = []string{
 	`st = make(struct { A int64, B string, C []interface, D map[string]int64 })`,
 	`tf = make([]float64, 1, 4)`,
 	`rows = make([][]int64, 2)`,
+	`ok = nil`,
+	`sk = make(struct { A int64, B string })`,
+	`su = make(struct { A []int64, B int64 })`,
+	`si = make(HostI)`,
+	`uk = make(User)`,
+	`ul = [up, uv]`,
+	`uh = {"p": up, "v": uv}`,
 	`st2 = make(struct { A int64, B string, C []interface, D map[string]int64 })`,
 }
 
